@@ -1,6 +1,6 @@
 CLAIM = True
 OPS = ['set', 'read', 'xchg', 'cmpxchg', 'add_return', 'sub_return', 'add', 'sub', 'inc', 'dec', 'and', 'or',
-       'addl_return', 'subl_return']
+       'addl_return', 'subl_return', 'addu_return', 'subu_return', 'addi_return', 'subi_return', 'addu', 'subu', 'subi', 'xchgi', 'cmpxchgi']
 
 
 def obligations(tier):
@@ -27,6 +27,11 @@ def obligations(tier):
                         rounds=R, unwind=3, timeout=900,
                         desc='3 threads incl. a cmpxchg retry loop: sum/token conservation, all schedules',
                         bounds=dict(T=3, R=R, U=3, B=0, impl=cfg)))
+        for wn, wt in (('u8', 'uint8_t'), ('u16', 'uint16_t'), ('u32', 'uint32_t'), ('u64', 'uint64_t')):
+            obs.append(dict(name='atomw_%s_%s' % (cfg, wn), src='c20_conc.c', cflags=cflags + ['-DWT=' + wt], nslots=3, post=['w_epi'],
+                            plain=[('w_epi', 0)], threads=[dict(fn='w_t1', slot=1), dict(fn='w_t2', slot=2)], rounds=R, unwind=3,
+                            desc='2 threads apply cmpxchg-loop / add_return / sub_return / add / sub / inc / dec / or / and / xchg to one %s cell: no lost update' % wt,
+                            bounds=dict(T=2, R=R, U=3, B=0, impl=cfg, width=wn)))
         for B in ((1,) if tier == 'quick' else (1, 2)):
             for st, ex in (('xchg', '(void)uatomic_xchg(p,1)'), ('cmpxchg', '(void)uatomic_cmpxchg(p,0,1)'),
                            ('add_return', '(void)uatomic_add_return(p,1)'), ('sub_return', '(void)uatomic_sub_return(p,-1)')):
